@@ -296,6 +296,9 @@ type chunkRaceResult struct {
 }
 
 func runChunkRace(sc ChunkRace, prefix []int) *chunkRaceResult {
+	if sc.Mode == "bystander" {
+		return runChunkBystander(sc, prefix)
+	}
 	res := &chunkRaceResult{}
 	vsync.TakeDoublePuts()
 	defer func() {
@@ -415,6 +418,71 @@ func runChunkRace(sc ChunkRace, prefix []int) *chunkRaceResult {
 	return res
 }
 
+// runChunkBystander: key k holds A; one connection overwrites it with B while a second reads it
+// (points before every backend request and before every piece of the reply that arrives - a reader
+// that has found a stale chunk still drains the rest of its batch); a third connection reads
+// another key, k2, in one go at any of those moments. The first reader sees A, B or a miss; the
+// bystander sees exactly k2's value - looked at only after everybody has finished: what a reader
+// gave up on must not be written into what another reader was handed.
+func runChunkBystander(sc ChunkRace, prefix []int) *chunkRaceResult {
+	res := &chunkRaceResult{}
+	vsync.TakeDoublePuts()
+	defer func() {
+		if f := doublePut("C05"); f != nil {
+			res.Findings = append(res.Findings, *f)
+		}
+	}()
+	key, key2 := "k", "q"
+	p := payloadFor(len(key))
+	size := func(n int) int { return (n-1)*p + p/3 + 1 }
+	st := fakemc.NewStore("L1")
+	s := sched.New(prefix)
+	res.S = s
+	opA := wire.Op{Kind: "set", Key: key, VGen: true, VLen: size(sc.NA), VSeed: 71, Flags: 0xA}
+	opB := wire.Op{Kind: "set", Key: key, VGen: true, VLen: size(sc.NA), VSeed: 72, Flags: 0xB}
+	op2 := wire.Op{Kind: "set", Key: key2, VGen: true, VLen: size(sc.NB), VSeed: 75, Flags: 0xC}
+	{
+		h := chunked.NewHandler(fakemc.NewConn(st, "prep"))
+		CallHandler(h, opA)
+		CallHandler(h, op2)
+	}
+	cX, cB, cY := fakemc.NewConn(st, "X"), fakemc.NewConn(st, "B"), fakemc.NewConn(st, "Y")
+	cX.Before = func(c *fakemc.Conn, f *fakemc.Frame) { s.Point("X:"+frameTag(f), nil) }
+	cX.BeforeRead = func(c *fakemc.Conn) { s.Point("X:reply-piece", nil) }
+	cX.ReadCap = 1300
+	cB.Before = func(c *fakemc.Conn, f *fakemc.Frame) { s.Point("B:"+frameTag(f), nil) }
+	hX, hB, hY := chunked.NewHandler(cX), chunked.NewHandler(cB), chunked.NewHandler(cY)
+	var rX, rB, rY HRes
+	s.Go(0, func() { rX = CallHandlerDeferred(hX, wire.Op{Kind: sc.Reader, Key: key, TTL: 100}) })
+	s.Go(1, func() { rB = CallHandler(hB, opB) })
+	s.Go(2, func() { rY = CallHandlerDeferred(hY, wire.Op{Kind: sc.Reader, Key: key2, TTL: 100}) })
+	s.Run()
+	rX.Materialize()
+	rY.Materialize()
+	add := func(clause, what string) {
+		res.Findings = append(res.Findings, Finding{Sig: fmt.Sprintf("C05 %s writers=overwrite+bystander reader=%s", clause, sc.Reader), What: what, Clause: clause})
+	}
+	if s.Deadlock {
+		add("deadlock", s.DeadlockInfo)
+		return res
+	}
+	for _, c := range []*fakemc.Conn{cX, cB, cY} {
+		if c.Hung || c.Spun {
+			add("backend-stream", fmt.Sprintf("connection %s: hung=%v spun=%v", c.Name, c.Hung, c.Spun))
+		}
+	}
+	res.Outcome = fmt.Sprintf("X=%s B=%s Y=%s", rX, rB.Class, rY.Class)
+	if c, d := lossOracle([][]byte{opA.Value(), opB.Value()}, []uint32{0xA, 0xB}, nil, false)(rX); c != "" {
+		add(c, "reader of the key being overwritten: "+d)
+	}
+	if c, d := lossOracle([][]byte{op2.Value()}, []uint32{0xC}, nil, false)(rY); c != "" {
+		add(c+"-bystander", "reader of ANOTHER key, which nobody writes: "+d)
+	} else if rY.Class != "values" || len(rY.Hits) != 1 {
+		add("bystander-miss", fmt.Sprintf("the other key, which nobody writes, was not served: %s", rY))
+	}
+	return res
+}
+
 func exploreChunkRaces(c *rt.Ctx, item *int) {
 	shapes := [][2]int{{2, 2}, {1, 2}, {2, 1}}
 	bound := -1
@@ -455,6 +523,12 @@ func exploreChunkRaces(c *rt.Ctx, item *int) {
 			}
 		}
 	}
+	// a reader of another key next to an overwrite and a reader of the overwritten key
+	for _, sh := range [][2]int{{8, 2}, {8, 8}, {3, 3}} {
+		for _, rd := range []string{"get", "gat"} {
+			progs = append(progs, prog{"bystander", sh, rd, ""})
+		}
+	}
 	for _, pg := range progs {
 		{
 			sh, rd := pg.sh, pg.rd
@@ -466,6 +540,9 @@ func exploreChunkRaces(c *rt.Ctx, item *int) {
 			b := bound
 			if sh[0]+sh[1] >= 5 {
 				b = 3
+			}
+			if pg.mode == "bystander" {
+				b = 2
 			}
 			if rd == "append" { // a read followed by a full re-write: bound the preemptions
 				b = 2
